@@ -3,12 +3,14 @@
 \* multi-action change with a later action refused).
 CONSTANTS
   Atomic = TRUE
+  SingleInPlace = FALSE
   DropDetached = TRUE
   Namespace = {1}
   M = 3
   MaxTs = 2
-  Classes = {"ok", "needs", "badSig", "rejectFirst", "rejectLater"}
+  Classes = {"ok", "label", "needs", "badSig", "rf.redactMissing.d", "rf.redactMissing.g", "rf.editMissing.d", "rf.editMissing.g", "rf.reactMissing.d", "rf.reactMissing.g", "rf.replyMissing.d", "rf.replyMissing.g", "rf.badTitle.d", "rf.badTitle.g", "rf.label.g", "rejectLater"}
   MaxBad = 2
+  FullCauses = 1
   AllowDetached = FALSE
   Emit = TRUE
   EmitMod = 1
